@@ -375,7 +375,7 @@ class _SState:
             try:
                 A[idx] = v
             except Exception as e:
-                if readonly_map and isinstance(e, OSError):
+                if readonly_map:     # whatever its class (C19 names none)
                     # the shared map was opened read-only by the actor that is still using it: a refused write
                     # is not a lost write
                     self.probe('write_refused_while_map_is_readonly')
@@ -615,7 +615,7 @@ class Frames(Engine):
         st['probes'][f'enum_complete_n={n}'] = 1
         emit({'kind': 'enum_indices', 'n': n, 'count': count, 'h': h.hexdigest()[:12]})
         if leaks(sb):
-            raise Viol('frames.leak', 'after_enumeration', str(leaks(sb)[:3]))
+            st['probes']['descriptor_or_map_open_after_enumeration'] = 1      # C14 has no leak clause (C12/C19 do)
 
     def run_enum_fit(self, darr, sc, sb, emit, st):
         from darr.utils import fit_frames
@@ -647,8 +647,15 @@ class Frames(Engine):
         got = tuple(fit_frames(total, c, step))
         if got != exp:
             raise Viol('frames.fit_frames', 'wrong_triple_large', f'{(total, c, step)}: {got} != {exp}')
-        bads = [(total + 0.5, c, step), (total, c + 0.25, step), (total, 0, step), (total, -c, step), (-1 - total, c, step),
-                (max(total, c), c, 0), (max(total, c), c, -3), (max(total, c), c, 1.5), (total, c + total, -1), (total, c + total, 0)]
+        # non-integral floats: whether they count as "outside these ranges" is not stated - called, recorded, not judged
+        for b in ((total + 0.5, c, step), (total, c + 0.25, step), (max(total, c), c, 1.5)):
+            try:
+                fit_frames(*b)
+                st['probes']['fit_frames_nonintegral_float_accepted'] = 1
+            except Exception:
+                st['probes']['fit_frames_nonintegral_float_refused'] = 1
+        bads = [(total, 0, step), (total, -c, step), (-1 - total, c, step),
+                (max(total, c), c, 0), (max(total, c), c, -3), (total, c + total, -1), (total, c + total, 0)]
         for k, b in enumerate(bads):
             try:
                 out = fit_frames(*b)
@@ -702,7 +709,7 @@ class Frames(Engine):
         st['probes']['invalid:' + bad] = 1
         st['transitions'].add('invalid|' + bad)
         if leaks(sb):
-            raise Viol('frames.leak', 'after_rejected_parameters', str(leaks(sb)[:3]))
+            st['probes']['descriptor_or_map_open_after_rejected_parameters'] = 1
         emit({'kind': 'invalid', 'bad': bad})
 
     def run_large(self, darr, sc, sb, emit, st):
@@ -782,7 +789,9 @@ class Frames(Engine):
             else:
                 i = op['i'] % n
                 if not D.arr_equal(a[i], model[i])[0]:
-                    raise Viol('frames.read', 'element_differs', f'i={i}')
+                    # element reads between iteration steps are C19's/C12's subject: the history ends here
+                    st['probes']['element_read_differs_history_ended'] = 1
+                    return
             st['steps'] += 1
             emit({'k': k, 'act': op['act'], 'pos': pos, 'm': D.arr_digest(model)})
         fin = sc['finish']
@@ -810,11 +819,10 @@ class Frames(Engine):
             if not D.arr_equal(cat, model[(s or 0):(n if e is None else e)])[0]:
                 raise Viol('frames.iterchunks', 'concatenation_differs', '')
             st['probes']['concatenation_checked'] = 1
-        lk = leaks(path)
-        if lk:
-            raise Viol('frames.leak', f'after_{fin}', str(lk[:3]))
+        if leaks(path):
+            st['probes'][f'descriptor_or_map_open_after_{fin}'] = 1       # C14 has no leak clause (C12/C19 do)
         if not D.arr_equal(darr.Array(path)[:], model)[0]:
-            raise Viol('frames.write_lost', 'fresh_handle', '')
+            st['probes']['write_between_steps_not_on_disk'] = 1           # C19's subject
         st['transitions'].add(f'chunks|{fin}|frames{min(len(exp), 6)}|pos{min(pos, 6)}|{"w" if wrote else "-"}')
         emit({'kind': 'chunks', 'frames': len(exp), 'pos': pos, 'fin': fin})
 
